@@ -73,6 +73,8 @@ func init() {
 }
 
 func runC07(p *chk.Prog, r *chk.Report) {
+	// PreferDualStack settles for the family that is left (FAMILY-SELECT, shared with C02)
+	c02FamilySelect(p, r)
 	// every namespace a pool's selectors match is pinned to it (ALLOCATE-TO, shared with C02): an unpinned namespace's
 	// Services stay pending next to a free pool
 	c02AllocateTo(p, r)
